@@ -256,9 +256,12 @@ type cp struct {
 
 func pick(r *rng, xs []int) int { return xs[r.intn(len(xs))] }
 
-func dy(r *rng, maxQ int, intGrid bool) float64 { // dyadic value k/4 (or integer)
+func dy(r *rng, maxQ int, intGrid bool) float64 { // dyadic value k/4, sometimes k/64 (or integer): exact in binary64
 	if intGrid {
 		return float64(r.intn(maxQ/4 + 1))
+	}
+	if r.chance(1, 4) {
+		return float64(r.intn(maxQ*16+1)) / 64
 	}
 	return float64(r.intn(maxQ+1)) / 4
 }
